@@ -16,12 +16,17 @@ for d in sorted(glob.glob(os.path.join(V, "seeded/*"))):
     m = json.load(open(os.path.join(d, "meta.json")))
     seeds.append("| %s | %s | %s |" % (os.path.basename(d), m["needs_to_manifest"].replace("|", "/")[:150], m["check_result"].replace("|", "/")[:260]))
 tab2 = "| seed | needs | result |\n|------|-------|--------|\n" + "\n".join(seeds) + "\n"
+gen = []
+for f in sorted(glob.glob(os.path.join(V, "coq/Tie/Gen_*.v"))):
+    names = re.findall(r"^Theorem ([A-Za-z0-9_]+)", open(f).read(), re.M)
+    gen.append("| `Tie/%s` | %d | %s |" % (os.path.basename(f), len(names), ", ".join("`%s`" % n for n in names)))
+tab3 = "| file | # | theorems (generated C function = model, or memory safety of the checked generated code) |\n|---|---|---|\n" + "\n".join(gen) + "\n"
 def put(s, tag, tab):
     a, b = "<!-- %s:begin -->\n" % tag, "<!-- %s:end -->\n" % tag
     if a in s:
         i, j = s.index(a) + len(a), s.index(b)
         return s[:i] + tab + s[j:]
     return s
-s = put(s, "theorems", tab1); s = put(s, "seeds", tab2)
+s = put(s, "theorems", tab1); s = put(s, "seeds", tab2); s = put(s, "gen", tab3)
 open(p, "w").write(s)
 print("DESIGN.md tables regenerated: %d properties, %d seeds" % (len(rows), len(seeds)))
